@@ -4,7 +4,7 @@ import abc
 import inspect
 import logging
 import threading
-from dataclasses import dataclass, field
+from dataclasses import dataclass, field, fields, is_dataclass
 from functools import lru_cache
 import typing
 from typing import _GenericAlias
@@ -736,6 +736,11 @@ class DataAccessObject(HasGeneric[T]):
         circular_refs = {
             key: value for key, value in circular_refs.items() if key not in base_kwargs
         }
+        circular_refs.update(
+            self._assign_fields_that_are_not_constructor_arguments(
+                result, mapper, argument_names, state
+            )
+        )
         self._apply_circular_fixes(result, circular_refs, state)
 
         if isinstance(result, AlternativeMapping):
@@ -744,6 +749,39 @@ class DataAccessObject(HasGeneric[T]):
 
         del state.in_progress[id(self)]
         return result
+
+    def _assign_fields_that_are_not_constructor_arguments(
+        self,
+        result: Any,
+        mapper: sqlalchemy.orm.Mapper,
+        argument_names: List[str],
+        state: FromDAOState,
+    ) -> Dict[str, Any]:
+        """
+        A dataclass field declared with init=False is stored like any other field but is no argument of the
+        constructor: it is assigned after the object was initialised.
+
+        :return: The circular references among the assigned relationships.
+        """
+        original_class = self.original_class()
+        if not is_dataclass(original_class):
+            return {}
+        field_names = [
+            field_.name
+            for field_ in fields(original_class)
+            if not field_.init and field_.name not in argument_names
+        ]
+        if not field_names:
+            return {}
+        values = self._collect_scalar_kwargs(mapper, field_names)
+        relationship_values, circular_refs = self._collect_relationship_kwargs(
+            mapper, field_names, state
+        )
+        values.update(relationship_values)
+        for name, value in values.items():
+            # also for frozen dataclasses
+            object.__setattr__(result, name, value)
+        return circular_refs
 
     def _allocate_uninitialized_and_memoize(self, state: FromDAOState) -> Any:
         """
